@@ -4,3 +4,4 @@ import Tx3Model.Tir
 import Tx3Model.Reduce
 import Tx3Model.CompilerOps
 import Tx3Model.SpecTir
+import Tx3Model.Select
